@@ -142,6 +142,9 @@ func (x *Exec) modTargets(env *Env, item string) ([]modTarget, error) {
 		// all(T.f) or all(T.*): the field in every object of type T
 		inner := item[4 : len(item)-1]
 		i := strings.LastIndex(inner, ".")
+		if j := strings.Index(inner, ".* - "); j >= 0 {
+			i = j
+		}
 		if i < 0 {
 			return nil, fmt.Errorf("all(%s): want all(T.f)", inner)
 		}
@@ -151,6 +154,26 @@ func (x *Exec) modTargets(env *Env, item string) ([]modTarget, error) {
 		}
 		if inner[i+1:] == "*" {
 			return x.structTargets(ty, nil), nil
+		}
+		if strings.HasPrefix(inner[i+1:], "* - ") {
+			// all(T.* - f - g): every field but the named ones
+			excl := map[string]bool{}
+			for _, n := range strings.Split(inner[i+1:], " - ")[1:] {
+				excl[strings.TrimSpace(n)] = true
+			}
+			st := structOf(ty)
+			var out []modTarget
+			for fi := 0; fi < st.NumFields(); fi++ {
+				if excl[st.Field(fi).Name()] {
+					delete(excl, st.Field(fi).Name())
+					continue
+				}
+				out = append(out, x.fieldTargets(ty, fi, nil)...)
+			}
+			for n := range excl {
+				return nil, fmt.Errorf("all(%s): no field %s", inner, n)
+			}
+			return out, nil
 		}
 		st := structOf(ty)
 		for fi := 0; fi < st.NumFields(); fi++ {
@@ -210,7 +233,13 @@ func (x *Exec) modTargets(env *Env, item string) ([]modTarget, error) {
 		for k := range x.cs.Ghosts {
 			g := &x.cs.Ghosts[k]
 			if g.Name == name {
-				if gt, err := x.prog.LookupType(g.Owner, env.pkg); err == nil && types.Identical(types.Unalias(gt), types.Unalias(ty)) {
+				gt, err := x.prog.LookupType(g.Owner, env.pkg)
+				if pk, ok := x.prog.ByPath[g.Pkg]; ok {
+					if gt2, err2 := x.prog.LookupType(g.Owner, pk.Types); err2 == nil {
+						gt, err = gt2, nil
+					}
+				}
+				if err == nil && types.Identical(types.Unalias(gt), types.Unalias(ty)) {
 					gf = g
 				}
 			}
@@ -218,7 +247,14 @@ func (x *Exec) modTargets(env *Env, item string) ([]modTarget, error) {
 		if gf == nil {
 			return nil, fmt.Errorf("no ghost field $%s on %s", name, inner[:i])
 		}
-		gt, err := x.prog.LookupType(gf.Type, env.pkg)
+		declPkg := env.pkg
+		if pk, ok := x.prog.ByPath[gf.Pkg]; ok {
+			declPkg = pk.Types
+		}
+		gt, err := x.prog.LookupType(gf.Type, declPkg)
+		if err != nil {
+			gt, err = x.prog.LookupType(gf.Type, env.pkg)
+		}
 		if err != nil {
 			return nil, err
 		}
@@ -602,6 +638,10 @@ func (x *Exec) frameObligations(fr *Frame, penv *Env, r ret, ri int) error {
 		// "modifies heap": callers keep (a) ghost fields and (b) the components listed under "preserves" across the
 		// call, so both are checked here; everything else may change.
 		penvT := x.envFor(fr, fr.entry, fr.entry)
+		// one obligation per return: the conjunction over all preserved components (a contract typically preserves
+		// hundreds of components — every field of a few struct types)
+		var goals []Term
+		var changed []string
 		for _, it := range fc.Preserves {
 			ts, err := x.modTargets(penvT, it)
 			if err != nil {
@@ -616,14 +656,21 @@ func (x *Exec) frameObligations(fr *Frame, penv *Env, r ret, ri int) error {
 				if cur.S == ent.S {
 					continue
 				}
+				changed = append(changed, t.Comp)
 				if !t.So.IsArray() {
-					x.u.AddObligation(x.topName, "preserve."+t.Comp, r.pos, x.labels, fmt.Sprintf("%s is preserved", t.Comp), r.st.PC, Eq(cur, ent))
+					goals = append(goals, Eq(cur, ent))
 					continue
 				}
 				sk := u.Fresh("pres.r", SInt)
-				goal := Implies(Le(App("root", SInt, sk), fr.entry.Alloc), Eq(Select(cur, sk), Select(ent, sk)))
-				x.u.AddObligation(x.topName, "preserve."+t.Comp, r.pos, x.labels, fmt.Sprintf("%s is preserved (as promised to callers)", t.Comp), r.st.PC, goal)
+				goals = append(goals, Implies(Le(App("root", SInt, sk), fr.entry.Alloc), Eq(Select(cur, sk), Select(ent, sk))))
 			}
+		}
+		if len(goals) > 0 {
+			txt := "components promised to callers under 'preserves' keep their entry value on every object that existed at entry: " + strings.Join(changed, " ")
+			if len(txt) > 600 {
+				txt = txt[:600] + " …"
+			}
+			x.u.AddObligation(x.topName, "preserve", r.pos, x.labels, txt, r.st.PC, And(goals...))
 		}
 	}
 	_ = fc
